@@ -10,7 +10,8 @@ from ..callgraph import CallGraph
 from ..pm import AnalysisError, unparse
 from ..report import VERIF, Check
 from ..sym import Resolver, Term, path_of, show, walk
-from . import c08, wiring
+from . import wiring
+from .activation_sem import activation_semantics
 from .common import const_value, early_exits, holds_at, is_path, iter_base, loc, loops_over, strip
 
 EXPLANATION = (
@@ -48,8 +49,8 @@ def run(check: Check) -> None:
     p = check.program
     wiring.p1_process_phases(check)
     for cls in ["General", "First", "Last", "Highest", "Lowest", "Proportional", "Threshold"]:
-        a = c08.Activate(check, cls)
-        only_deactivate(a)
+        # O-dea of C08, by interpretation: each rule's activation state is reset before it is used in this step
+        activation_semantics(check, cls, ("deactivate-first",))
     step_state(check)
     restart(check)
     from . import c12
@@ -65,14 +66,6 @@ def run(check: Check) -> None:
     from .common import memoisation_rule
 
     memoisation_rule(check)
-
-
-def only_deactivate(a: c08.Activate) -> None:
-    """O-dea of C08: deactivate() opens every iteration (activation_degree / triggered are re-initialised before use)."""
-    from .common import body_entry, iter_precedes, method_calls_on
-
-    ok, where = a.deactivation()
-    a.check.require(ok, "O-dea", a.construct("deactivate"), "each rule's activation state is reset before it is used in this step", loc(a.fn, where))
 
 
 # ------------------------------------------------------------------------------------------------ H5
